@@ -138,6 +138,19 @@ class SerializerExtractor:
             self._exec(body, nm, env, br, certain=True)
         return br
 
+    def _str_tuple(self, e: ast.AST) -> Optional[tuple]:
+        """A literal tuple of strings, or a module constant holding one."""
+        if isinstance(e, ast.Tuple):
+            return tuple(x.value for x in e.elts if isinstance(x, ast.Constant))
+        if isinstance(e, ast.Name):
+            m = self.f.module
+            node = m.assigns.get(e.id)
+            if node is not None:
+                v = self.E.P.fold_or_none(m, node)
+                if isinstance(v, (tuple, list)) and all(isinstance(x, str) for x in v):
+                    return tuple(v)
+        return None
+
     def _dictval(self, e: ast.AST, nm: str, env: dict, br: SerBranch) -> Optional[DictVal]:
         if isinstance(e, ast.Name) and e.id in env:
             return env[e.id]
@@ -158,8 +171,8 @@ class SerializerExtractor:
             return d
         if isinstance(e, ast.Call):
             fd = dotted(e.func) or ""
-            if fd == "get_all_args" and e.args and isinstance(e.args[0], ast.Tuple):
-                tup = tuple(x.value for x in e.args[0].elts if isinstance(x, ast.Constant))
+            if fd == "get_all_args" and e.args and self._str_tuple(e.args[0]) is not None:
+                tup = self._str_tuple(e.args[0])
                 br.tuples[nm] = tup
                 return DictVal(keys={k: "req" for k in tup}, from_tuple=tup, method=nm)
             if fd == "remove_kwarg_if_default" and len(e.args) == 3:
@@ -273,19 +286,33 @@ def deserializer_ops(E: Engine) -> dict[str, DeserOp]:
         req: set = set()
         opt: dict = {}
         calls = []
-        for n in ast.walk(ast.Module(body=cur.body, type_ignores=[])):
-            if isinstance(n, ast.Subscript) and isinstance(n.value, ast.Name) and n.value.id == "op" and isinstance(n.slice, ast.Constant):
-                req.add(n.slice.value)
-            if isinstance(n, ast.Call) and isinstance(n.func, ast.Attribute) and n.func.attr == "get" and isinstance(n.func.value, ast.Name) and n.func.value.id == "op" and n.args and isinstance(n.args[0], ast.Constant):
-                d: Any = "<none>"
-                if len(n.args) > 1:
-                    try:
-                        d = ast.literal_eval(n.args[1])
-                    except Exception:
-                        d = "<expr>"
-                opt[n.args[0].value] = d
-            if isinstance(n, ast.Call) and isinstance(n.func, ast.Attribute) and isinstance(n.func.value, ast.Name) and n.func.value.id == "seq":
-                calls.append((n.func.attr, [k.arg for k in n.keywords if k.arg], len([a for a in n.args if not isinstance(a, ast.Starred)]), any(isinstance(a, ast.Starred) for a in n.args), n))
+
+        def scan(nodes: list, opname: str, depth: int = 0) -> None:
+            """Key reads of the operation dict, followed into private helpers of the module that receive it."""
+            for n in ast.walk(ast.Module(body=nodes, type_ignores=[])):
+                if isinstance(n, ast.Subscript) and isinstance(n.value, ast.Name) and n.value.id == opname and isinstance(n.slice, ast.Constant):
+                    req.add(n.slice.value)
+                if isinstance(n, ast.Call) and isinstance(n.func, ast.Attribute) and n.func.attr == "get" and isinstance(n.func.value, ast.Name) and n.func.value.id == opname and n.args and isinstance(n.args[0], ast.Constant):
+                    d: Any = "<none>"
+                    if len(n.args) > 1:
+                        try:
+                            d = ast.literal_eval(n.args[1])
+                        except Exception:
+                            d = "<expr>"
+                    opt[n.args[0].value] = d
+                if isinstance(n, ast.Call) and isinstance(n.func, ast.Attribute) and isinstance(n.func.value, ast.Name) and n.func.value.id == "seq" and depth == 0:
+                    calls.append((n.func.attr, [k.arg for k in n.keywords if k.arg], len([a for a in n.args if not isinstance(a, ast.Starred)]), any(isinstance(a, ast.Starred) for a in n.args), n))
+                if isinstance(n, ast.Call) and isinstance(n.func, ast.Name) and n.func.id.startswith("_") and depth < 2:
+                    h = f.module.functions.get(n.func.id)
+                    if h is not None and h is not f:
+                        for i, a in enumerate(n.args):
+                            if isinstance(a, ast.Name) and a.id == opname and i < len(h.params):
+                                scan(h.node.body, h.params[i], depth + 1)
+                        for k in n.keywords:
+                            if isinstance(k.value, ast.Name) and k.value.id == opname and k.arg in h.params:
+                                scan(h.node.body, k.arg, depth + 1)
+
+        scan(cur.body, "op")
         req.discard("op")
         out[name] = DeserOp(name, req - set(opt), opt, calls, cur.lineno)
         if len(cur.orelse) == 1 and isinstance(cur.orelse[0], ast.If):
